@@ -5,12 +5,12 @@
 (* choices (every NFVS, every retained assignment), on every network of    *)
 (* the chosen family.  One initial state per network; no transitions.      *)
 (***************************************************************************)
-EXTENDS BoolNet, Integers, SequencesExt, FiniteSetsExt, Json
+EXTENDS BoolNet, Integers, SequencesExt, FiniteSetsExt, Json, IOUtils
 
 CONSTANT NetMode   \* "all2" | "file"
 VARIABLE S
 AllNets2 == LET TT == [1..4 -> {0, 1}] IN {[n |-> 2, f |-> <<a, b>>] : a \in TT, b \in TT}
-FileNets == IF NetMode = "file" THEN ndJsonDeserialize("catalogue.ndjson") ELSE <<>>
+FileNets == IF NetMode = "file" THEN ndJsonDeserialize(IF "CATALOGUE" \in DOMAIN IOEnv THEN IOEnv.CATALOGUE ELSE "catalogue.ndjson") ELSE <<>>
 Nets == IF NetMode = "all2" THEN AllNets2 ELSE {FileNets[i].net : i \in DOMAIN FileNets}
 
 Init == \E nt \in Nets : S = SemOf(nt)
